@@ -44,9 +44,9 @@ def r1(ctx, rep):
     # sites with a local proof (the presence test dominates the unwrap) need no reviewed class; only those of classes that are new or
     # have grown are examined, so a reviewed class keeps its count
     raw = panics.class_counts(sites)
-    proven = [s_ for s_ in sites if (rows.get(s_["key"]) is None or raw[s_["key"]] > rows[s_["key"]]["count"]) and presence_tested(s_, syn)]
+    proven = [s_ for s_ in sites if (rows.get(s_["key"]) is None or raw[s_["key"]] > rows[s_["key"]]["count"]) and (presence_tested(s_, syn) or index_proved(s_, syn) or nonempty_tested(s_, syn) or sub_proved(s_, syn))]
     if proven:
-        rep.note(f"{len(proven)} site(s) discharged locally (unwrap dominated by is_some / is_ok): " + ", ".join(f"{p_['fn'].split('::')[-1]}:{p_['l']}" for p_ in proven[:5]))
+        rep.note(f"{len(proven)} site(s) discharged locally (unwrap dominated by is_some / is_ok, literal index dominated by a length test): " + ", ".join(f"{p_['fn'].split('::')[-1]}:{p_['l']}" for p_ in proven[:5]))
         sites = [s_ for s_ in sites if not any(s_ is p_ for p_ in proven)]
     counts = panics.class_counts(sites)
     by_key = {}
@@ -105,6 +105,53 @@ def presence_tested(sdict, syn, _cache={}):
     return False
 
 
+_LEN_KEEPING = ("iter", "into_iter", "iter_mut", "map", "collect", "try_collect", "collect_vec", "cloned", "copied", "enumerate", "rev", "to_vec", "clone",
+                "peekable", "as_slice", "map_ok", "try_collect_vec")
+
+
+def _length_origin(base, site, par):
+    """follow a local back through element-count-preserving steps (`let v: Vec<_> = R.into_iter().map(..).try_collect()?; let mut it = v.into_iter();`)
+    to the place R it was made from; a local qualifies only when nothing mentions it between its definition and the statement of the site
+    (so no element was taken from it before)"""
+    for _ in range(6):
+        if not (base.get("k") == "path" and "::" not in base["p"]):
+            return base
+        name = base["p"]
+        # the statement list that holds the site, and the site's statement in it
+        cur, blk, st_site = site, None, None
+        while id(cur) in par:
+            p_ = par[id(cur)]
+            if p_.get("k") == "block" and any(st is cur for st in p_["s"]):
+                defs = [i for i, st in enumerate(p_["s"]) if st.get("k") == "local" and st["pat"].get("k") == "p_ident" and st["pat"]["n"] == name and st.get("init") is not None
+                        and i < [j for j, st in enumerate(p_["s"]) if st is cur][0]]
+                if defs:
+                    blk, st_site, d = p_, cur, defs[-1]
+                    break
+            cur = p_
+        if blk is None:
+            return base
+        i_site = [j for j, st in enumerate(blk["s"]) if st is st_site][0]
+        between = blk["s"][d + 1:i_site]
+        if any(x.get("k") == "path" and x["p"] == name for st in between for x in walk(st)):
+            return base
+        # .. and within the site's statement the site's use is the first mention
+        e = blk["s"][d]["init"]
+        while True:
+            if e.get("k") in ("paren", "try"):
+                e = e["e"]
+            elif e.get("k") == "mcall" and e["m"] in _LEN_KEEPING and all(a.get("k") == "closure" for a in e["a"]):
+                e = e["r"]
+            else:
+                break
+        if show(e) == name and blk["s"][d]["pat"].get("n") == name:
+            # shadowing `let mut x = x.into_iter()`: continue from the earlier definition, searched before statement d
+            site = blk["s"][d]
+        else:
+            site = blk["s"][d]
+        base = e
+    return base
+
+
 def nonempty_tested(sdict, syn, _cache={}):
     """`R.last() / first() / pop() / next() .. .unwrap()` only reached when R was tested non-empty (`!R.is_empty()`, `R.len() > 0`, `>= 1`, `== k` with
     k >= 1, a match arm `k =>` on `R.len()`), in any of the if / else / early-return spellings."""
@@ -122,6 +169,7 @@ def nonempty_tested(sdict, syn, _cache={}):
             base = n["r"]["r"]
             while base.get("k") == "mcall" and base["m"] in ("iter", "into_iter", "iter_mut", "chars", "as_slice", "as_mut", "as_ref", "clone", "drain") and not base["a"]:
                 base = base["r"]
+            base = _length_origin(base, n, par)
             R = show(base, maxdepth=10).lstrip("&*")
             if not R or "(" in R.replace("()", ""):
                 continue
@@ -156,6 +204,70 @@ def nonempty_tested(sdict, syn, _cache={}):
                                 return True
                 cur = p_
     return False
+
+
+def index_proved(sdict, syn):
+    """a bounds-check site whose every literal index expression on that line is dominated by a length test that puts it in range"""
+    if not (sdict["cls"] in ("Vec[]", "mir:bounds", "slice[]") or "index" in sdict["cls"].lower() or "bounds" in sdict["cls"]):
+        return False
+    import guards
+    sf = syn.fn_at(sdict["file"], sdict["l"])
+    if not sf or "body" not in sf:
+        return False
+    par = guards.parents(sf["body"])
+    idx = [n for n in walk(sf["body"]) if n.get("k") == "index" and n["l"] == sdict["l"]]
+    return bool(idx) and all(n["i"].get("k") == "lit" and index_guard(n, par) for n in idx)
+
+
+def sub_proved(sdict, syn):
+    """`n -= k` / `n - k` (k a literal) as a statement of a `while n > j && ..` / `if n > j` body (j >= k - 1, or `n >= k`, `n != 0` for k = 1) with
+    no write to n earlier in that body: the subtraction cannot underflow"""
+    if sdict["cls"] != "mir:overflow_sub":
+        return False
+    import guards
+    sf = syn.fn_at(sdict["file"], sdict["l"])
+    if not sf or "body" not in sf:
+        return False
+    par = guards.parents(sf["body"])
+    subs = [n for n in walk(sf["body"]) if n.get("k") == "bin" and n["op"] in ("-=", "-") and n["l"] == sdict["l"]]
+    if not subs:
+        return False
+    for n in subs:
+        if not (n["lhs"].get("k") == "path" and n["rhs"].get("k") == "lit" and str(n["rhs"].get("v", "")).isdigit()):
+            return False
+        name, k = n["lhs"]["p"], int(n["rhs"]["v"])
+        # the statement of the enclosing body that holds the subtraction
+        cur, ok = n, False
+        while id(cur) in par:
+            q = par[id(cur)]
+            if q.get("k") == "block":
+                holder = par.get(id(q))
+                body_of = holder is not None and ((holder.get("k") == "while" and holder.get("body") is q) or (holder.get("k") == "if" and holder.get("t") is q and holder["c"].get("k") != "let"))
+                if body_of:
+                    i = [j for j, st in enumerate(q["s"]) if st is cur]
+                    before = q["s"][:i[0]] if i else q["s"]
+                    written = any((x.get("k") == "assign" and show(x["lhs"]) == name) or (x.get("k") == "bin" and x["op"] in ("-=", "+=", "*=", "/=") and show(x["lhs"]) == name)
+                                  or (x.get("k") == "ref" and x.get("mut") and show(x["e"]) == name) for st in before for x in walk(st))
+                    for cj in guards.conjuncts(holder["c"]):
+                        t = show(cj).replace(" ", "").replace("(", "").replace(")", "")
+                        m = re.fullmatch(re.escape(name) + r"(>|>=|!=)(\d+)", t)
+                        m2 = re.fullmatch(r"(\d+)(<|<=)" + re.escape(name), t)
+                        lo = None
+                        if m:
+                            j = int(m.group(2))
+                            lo = j + 1 if m.group(1) == ">" else j if m.group(1) == ">=" else (1 if j == 0 else None)
+                        elif m2:
+                            j = int(m2.group(1))
+                            lo = j + 1 if m2.group(2) == "<" else j
+                        if lo is not None and lo >= k and not written:
+                            ok = True
+                    break
+            if q.get("k") in ("closure", "item_fn"):
+                break
+            cur = q
+        if not ok:
+            return False
+    return True
 
 
 def guarded_counts(sites, syn):
